@@ -37,6 +37,7 @@ import (
 	"regexp"
 	"strconv"
 	"strings"
+	"unicode"
 
 	"golang.org/x/net/html"
 
@@ -1041,34 +1042,27 @@ func isDataAttribute(val string) bool {
 }
 
 func removeUnicode(value string) string {
-	substitutedValue := value
-	currentLoc := cssUnicodeChar.FindStringIndex(substitutedValue)
-	for currentLoc != nil {
-
-		character := substitutedValue[currentLoc[0]+1 : currentLoc[1]]
-		character = strings.TrimSpace(character)
-		if len(character) < 4 {
-			character = strings.Repeat("0", 4-len(character)) + character
-		} else {
-			for len(character) > 4 {
-				if character[0] != '0' {
-					character = ""
-					break
-				} else {
-					character = character[1:]
-				}
-			}
+	// Decode CSS escapes (a backslash, one to six hex digits and an optional
+	// space) once, left to right, the way a browser does: the decoded
+	// character is never trimmed or scanned again, and a code point that is
+	// zero, a surrogate or beyond U+10FFFF becomes U+FFFD.
+	var decoded strings.Builder
+	for {
+		currentLoc := cssUnicodeChar.FindStringIndex(value)
+		if currentLoc == nil {
+			decoded.WriteString(value)
+			return decoded.String()
 		}
-		character = "\\u" + character
-		translatedChar, err := strconv.Unquote(`"` + character + `"`)
-		translatedChar = strings.TrimSpace(translatedChar)
-		if err != nil {
-			return ""
+		decoded.WriteString(value[:currentLoc[0]])
+		character := strings.TrimSpace(value[currentLoc[0]+1 : currentLoc[1]])
+		codePoint, err := strconv.ParseUint(character, 16, 32)
+		if err != nil || codePoint == 0 || codePoint > unicode.MaxRune ||
+			(codePoint >= 0xD800 && codePoint <= 0xDFFF) {
+			codePoint = unicode.ReplacementChar
 		}
-		substitutedValue = substitutedValue[0:currentLoc[0]] + translatedChar + substitutedValue[currentLoc[1]:]
-		currentLoc = cssUnicodeChar.FindStringIndex(substitutedValue)
+		decoded.WriteRune(rune(codePoint))
+		value = value[currentLoc[1]:]
 	}
-	return substitutedValue
 }
 
 func (p *Policy) matchRegex(elementName string) (map[string][]attrPolicy, bool) {
